@@ -195,6 +195,7 @@ func iTruth(id int) string {
 var hashIdxBucket = []byte("hashidx") // the bucket the chain store maintains (block hash → height)
 
 type xState struct {
+	vol      int
 	db       database.DB
 	txIndex  *indexers.TxIndex
 	cached   *indexers.UnspentIndex
@@ -205,6 +206,7 @@ type xState struct {
 }
 
 var X *xState
+var xLastBlockTxs int
 
 func xHash(id int) common.Uint256 {
 	if t, ok := X.tx[id]; ok {
@@ -229,7 +231,7 @@ func xReset(vol int, memoryFirst bool) {
 	p := *config.GetDefaultParams()
 	p.TxCacheVolume = uint32(vol)
 	p.MemoryFirst = memoryFirst
-	X = &xState{db: db, txIndex: indexers.NewTxIndex(db), cached: indexers.NewUnspentIndex(db, &p), uncached: indexers.NewUnspentIndex(db, &p),
+	X = &xState{vol: vol, db: db, txIndex: indexers.NewTxIndex(db), cached: indexers.NewUnspentIndex(db, &p), uncached: indexers.NewUnspentIndex(db, &p),
 		blocks: map[int]*types.Block{}, tx: map[int]interfaces.Transaction{}}
 	err = db.Update(func(dbTx database.Tx) error {
 		if _, err := dbTx.Metadata().CreateBucket(hashIdxBucket); err != nil {
@@ -624,12 +626,24 @@ func exec(t []string) string {
 	case "x.reset":
 		xReset(atoi(t[1]), t[2] == "1")
 		return "ok"
-	case "x.connect":
+	case "x.fetchv":
+		id := atoi(t[1])
+		lastExpect = xFetch(X.uncached, id)
+		return xFetch(X.cached, id)
+	case "x.connect", "x.bulk":
 		h := atoi(t[1])
 		var txs []interfaces.Transaction
-		for _, spec := range strings.Split(t[2], ";") {
-			txs = append(txs, xBuildTx(spec))
+		if t[0] == "x.bulk" {
+			from, count := atoi(t[2]), atoi(t[3])
+			for k := 0; k < count; k++ {
+				txs = append(txs, xBuildTx(fmt.Sprintf("%d:0:1:0:-", from+k)))
+			}
+		} else {
+			for _, spec := range strings.Split(t[2], ";") {
+				txs = append(txs, xBuildTx(spec))
+			}
 		}
+		xLastBlockTxs = len(txs)
 		X.nonce++
 		block := &types.Block{Header: common2.Header{Height: uint32(h), Nonce: X.nonce}, Transactions: txs}
 		bh := block.Hash()
@@ -821,7 +835,12 @@ func oracle(t []string, out string) *hx.Violation {
 		if field(out, "after") != rgExpectAfter {
 			return bad("utxo-cache-stale", "after the node reorganised, GetTxReference answers "+field(out, "after")+" but the store lookup says "+rgExpectAfter)
 		}
-	case "x.fetch":
+	case "x.connect", "x.bulk":
+		// ConnectBlock trims before it caches the block's transactions
+		if n := atoi(field(out, "len")); n > X.vol+indexers.TrimmingInterval+xLastBlockTxs {
+			return bad("txcache-over-limit", fmt.Sprintf("%d transactions cached after connecting a block of %d, volume %d + interval %d", n, xLastBlockTxs, X.vol, indexers.TrimmingInterval))
+		}
+	case "x.fetch", "x.fetchv":
 		if answer(out) != lastExpect {
 			return bad("txcache-stale", "UnspentIndex.FetchTx answers "+answer(out)+", a cache-less index on the same database "+lastExpect)
 		}
